@@ -64,11 +64,13 @@ def items(tier):
                                 bound = 1 if (n <= 2 or (tier == "thorough" and n == 3 and r == 1)) else 0
                                 out.append({"case": {"g": g, "kinds": kinds, "pars": pars, "jobs": jobs, "fails": fails,
                                                      "stop_early": stop}, "bound": bound})
+    for case in rungrid.conformance_cases(tier, kindsets=(["cmd"] * 3, ["exp"] * 3, ["combine", "exp", "exp"])):
+        out.append({"case": case, "bound": 0, "conform": True})
     return out
 
 
 def run_item(item, tier):
-    return rungrid.explore_case(item["case"], item["bound"], [mon], max_exec=100000)
+    return rungrid.explore_case(item["case"], item["bound"], [mon], max_exec=100000, conform=bool(item.get("conform")))
 
 
 def replay(artefact):
